@@ -89,7 +89,17 @@ ValidRankSpec(c, rs, frac) ==
 \* magnitude regime: the tensor handed to the routine is X * 2^pow2 (an exact scaling in binary floating
 \* point); the contract is scale invariant, err^2 is divided by 4^pow2 (exactly) before it is logged.
 \* 2^66 ~ 7e19, 2^400 ~ 2.6e120.  Only float64 can hold these.
-Pow2s == {-400, -66, 0, 66, 400}
+Pow2s == {-650, -530, -400, -66, 0, 66, 400, 650}     \* 2^-530 ~ 2.8e-160: squares are denormal, not yet zero
+\* 2^650 ~ 4.7e195: squares of the entries are not representable (overflow / underflow), the values themselves
+\* are.  symeig_svd is DEFINED through the Gram matrix A^T A, so it is obliged only while that is representable.
+Pow2OK(svd, pow2) == svd = "symeig_svd" => (pow2 >= -400 /\ pow2 <= 400)
+
+\* "reproduce the input to rounding error": relative error ||X - rec|| / ||X||, exchanged as rint(x * 10^12)
+\* (capped).  The admissible rounding error follows the precision class of the INPUT (integers and float64
+\* are decomposed in double precision), never the dtype of what came back.
+\*   double: 1e-10  (observed on the unchanged tree <= 1e-14 for LAPACK, <= ~1e-12 through the Gram matrix)
+\*   single: 1e-4   (c * 2^-24 with c of the order of the condition numbers met here)
+ExactRelTol(dtype) == IF dtype = "float32" THEN 100000000 ELSE 100
 
 \* No combination is left out of the domain.  (Two were, until repaired: F-05d symeig_svd clipped the Gram eigenvalues
 \* at machine eps in ABSOLUTE terms -- wrong for magnitudes << 1e-8 and >> 1 --, F-05e randomized_range_finder drew its
@@ -174,6 +184,9 @@ UpperRank(c, j) == CASE c.op = "tr" -> LET E == ExpTRRot(c.shape, c.rank, c.mode
 
 LowerBound(c, tails) == SeqMax([j \in 1..NUnf(c) |-> TailAt(tails, j, LowerRank(c, j))])
 UpperBound(c, tails) == SeqSum([j \in 1..NUnf(c) |-> TailAt(tails, j, UpperRank(c, j))])
+
+\* the requested ranks cover the full size of every unfolding: nothing can be discarded, whatever the data
+StructurallyFull(c) == \A j \in 1..NUnf(c) : UpperRank(c, j) >= MinOf(UnfDims(c, j)[1], UnfDims(c, j)[2])
 
 \* randomized_svd (default oversampling 5) is an exact method only when k + 5 covers the rank of every
 \* matrix it is applied to; rkbound = a bound on those ranks (number of non-zeros of a matching tensor)
